@@ -51,6 +51,7 @@ type Type struct {
 	Variadic bool    `json:",omitempty"`
 	Fields   []Field `json:",omitempty"` // struct: exported fields
 	PtrRecv  bool    `json:",omitempty"` // iface methods of this struct use pointer receivers
+	ImplError bool   `json:",omitempty"` // struct: has a method Error() string (pointer receiver)
 	NoHash   bool    `json:",omitempty"` // struct without hidden hash field: its hash is derived from its fields (wire.Struct targets)
 	Impl     TypeID  `json:",omitempty"` // iface: a type implementing it (struct or ptr)
 	AlsoImpl []TypeID `json:",omitempty"` // struct: further interfaces it implements (value receiver)
@@ -243,10 +244,27 @@ func (c *Case) Expr(id TypeID, from string) string {
 // types may be spelled differently there (byte for uint8, rune for int32, any for
 // interface{}), which must not matter for resolution by type.
 func (c *Case) ExprParam(id TypeID, from string) string {
-	if id != CtxType {
-		t := c.T(id)
-		if t.Kind == KBasic && t.AltSpell != "" {
+	if id == CtxType {
+		return c.Expr(id, from)
+	}
+	t := c.T(id)
+	switch t.Kind {
+	case KBasic:
+		if t.AltSpell != "" {
 			return t.AltSpell
+		}
+	case KPtr:
+		return "*" + c.ExprParam(t.Elem, from)
+	case KSlice:
+		return "[]" + c.ExprParam(t.Elem, from)
+	case KArray:
+		return fmt.Sprintf("[%d]%s", t.Len, c.ExprParam(t.Elem, from))
+	case KMap:
+		return "map[" + c.ExprParam(t.Key, from) + "]" + c.ExprParam(t.Elem, from)
+	case KGeneric:
+		base := c.Expr(id, from)
+		if i := strings.IndexByte(base, '['); i >= 0 {
+			return base[:i] + "[" + c.ExprParam(t.Elem, from) + "]"
 		}
 	}
 	return c.Expr(id, from)
